@@ -35,6 +35,9 @@ pub struct OpSpec {
     node: u8,
     at_ms: u16,
     kind: Kind,
+    /// the caller gives up after this many ms and drops the operation's future mid-flight (select!/timeout/abort)
+    #[serde(default)]
+    cancel_after_ms: Option<u16>,
 }
 #[derive(Debug, Clone, Serialize, Deserialize)]
 pub struct Case {
@@ -153,6 +156,7 @@ async fn run_async(c: &Case, real: bool) -> Verdict {
         let stub = stubs[i].clone();
         let kind = op.kind.clone();
         let seed = c.id_seed;
+        let cancel_after = op.cancel_after_ms.map(|ms| Duration::from_millis(ms as u64 / div));
         let other_addr = match &op.kind {
             Kind::Connect(j) => Some(nodes[*j as usize % n].addr),
             _ => None,
@@ -163,7 +167,8 @@ async fn run_async(c: &Case, real: bool) -> Verdict {
         handles.push((oi, i, at, tokio::spawn(async move {
             tokio::time::sleep(at).await;
             let started = tokio::time::Instant::now();
-            let what: &'static str = match kind {
+            let op = async {
+                let what: &'static str = match kind {
                 Kind::Lookup(k) => {
                     let _ = node.mgr.find_closest_nodes(&key_of(k, seed), 8).await;
                     "find_closest_nodes"
@@ -213,6 +218,15 @@ async fn run_async(c: &Case, real: bool) -> Verdict {
                     hub2.inject(&stub, &node.tid, frame).await;
                     "inbound"
                 }
+            };
+                what
+            };
+            let what: &'static str = match cancel_after {
+                Some(ms) => match tokio::time::timeout(ms, op).await {
+                    Ok(w) => w,
+                    Err(_) => "cancelled_by_caller",
+                },
+                None => op.await,
             };
             (what, started.elapsed())
         })));
@@ -315,6 +329,9 @@ async fn run_async(c: &Case, real: bool) -> Verdict {
     if in_flight_at_stop {
         v.class("stop_with_operation_in_flight");
     }
+    if c.ops.iter().any(|o| o.cancel_after_ms.is_some()) {
+        v.class("with_operation_cancelled_by_its_caller");
+    }
     if c.stop_with_op.is_some() {
         v.class("stop_at_the_instant_an_operation_starts");
     }
@@ -333,14 +350,14 @@ async fn run_async(c: &Case, real: bool) -> Verdict {
 pub fn run(run: &Run) {
     run.assume("single-threaded runtime with a paused clock: time advances only when every task is idle, so delivery order and timeouts are a function of the seed and exceeding a virtual-time bound is a decided violation; OS-thread interleavings are not explored");
     run.assume("'sends no further requests after stop' is evaluated from the moment stop() has returned and every operation started before it has resolved");
-    run.set_rule("scenario", "2..12 real nodes in a generated topology, request timeout T=2 s (virtual); 2..12 (thorough ..40) operations (lookup, put, get, ping, inbound request frames from stub peers, dials of known and never-seen peers, inbound connections of never-seen peers) at seeded offsets, per-frame delays up to 1.5 T, seeded randomised yields (0..5 per send/dial) in two thirds of the cases, peers turned silent/dead at seeded instants, stop() of one node at a seeded instant or at the very instant one of its operations starts; non-trivial = ≥2 operations and (a silenced peer or stop() landing while an operation of that node is in flight)");
+    run.set_rule("scenario", "2..12 real nodes in a generated topology, request timeout T=2 s (virtual); 2..12 (thorough ..40) operations (lookup, put, get, ping, inbound request frames from stub peers, dials of known and never-seen peers, inbound connections of never-seen peers) at seeded offsets, a fifth of them dropped by their caller after a seeded delay, per-frame delays up to 1.5 T, seeded randomised yields (0..5 per send/dial) in two thirds of the cases, peers turned silent/dead at seeded instants, stop() of one node at a seeded instant or at the very instant one of its operations starts; non-trivial = ≥2 operations and (a silenced peer or stop() landing while an operation of that node is in flight)");
     run.max_shrink.store(120, std::sync::atomic::Ordering::Relaxed);
     let sh = shards_for(run.tier);
     let maxops = run.tier.pick(12usize, 40);
     let case = move || {
         let topo = prop_oneof![3 => Just(Topo::Mesh), 1 => Just(Topo::Ring), 1 => Just(Topo::Line), 1 => Just(Topo::Star), 1 => Just(Topo::Tree), 2 => (any::<u8>(), 30u8..200).prop_map(|(s, p)| Topo::Gnp(s, p))];
         let kind = prop_oneof![3 => any::<u8>().prop_map(Kind::Lookup), 3 => (any::<u8>(), any::<u8>()).prop_map(|(k, l)| Kind::Put(k, l)), 3 => any::<u8>().prop_map(Kind::Get), 1 => any::<u8>().prop_map(Kind::Ping), 2 => (0u8..5, any::<u8>()).prop_map(|(w, k)| Kind::Inbound(w, k)), 1 => any::<u8>().prop_map(Kind::Connect), 1 => Just(Kind::ConnectFresh), 1 => Just(Kind::InboundConnect)];
-        let op = (any::<u8>(), 0u16..4000, kind).prop_map(|(node, at_ms, kind)| OpSpec { node, at_ms, kind });
+        let op = (any::<u8>(), 0u16..4000, kind, prop::option::weighted(0.2, prop_oneof![1u16..50, 50u16..1900, 1900u16..4500])).prop_map(|(node, at_ms, kind, cancel_after_ms)| OpSpec { node, at_ms, kind, cancel_after_ms });
         let silence = (any::<u8>(), 0u16..5000, prop_oneof![3 => Just(Mode::Silent), 1 => Just(Mode::Dead), 1 => (100u32..2500).prop_map(Mode::Slow)]);
         (2u8..=12, topo, any::<u8>(), prop_oneof![2 => Just(0u16), 2 => 1u16..1500, 1 => 1500u16..3000], prop::collection::vec(op, 2..=maxops), prop::collection::vec(silence, 0..4), prop::option::weighted(0.7, (any::<u8>(), 0u16..5000)), prop_oneof![1 => Just(0u8), 2 => 1u8..6], prop::option::weighted(0.3, any::<u8>()))
             .prop_map(|(n, topo, id_seed, jitter_ms, ops, silences, stop, yields, stop_with_op)| Case { n, topo, id_seed, jitter_ms, ops, silences, stop, yields, stop_with_op })
